@@ -95,8 +95,67 @@ def mentions(t, pred):
 CMP_OPS = {"Lt", "Le", "Gt", "Ge", "Eq", "Ne"}
 
 
+def _is_sub(t):
+    return isinstance(t, tuple) and len(t) == 4 and t[0] == "bin" and t[1] == "Sub" and not _maybe_signed(t[2]) and not _maybe_signed(t[3])
+
+
+def _minmax_other(m, x):
+    """m = min/max(x, y) -> y"""
+    if isinstance(m, tuple) and len(m) == 3 and m[0] in ("min", "max") and x in (m[1], m[2]) and m[1] != m[2]:
+        return m[2] if m[1] == x else m[1]
+    return None
+
+
+_FLIP = {"Lt": "Gt", "Gt": "Lt", "Le": "Ge", "Ge": "Le", "Eq": "Eq", "Ne": "Ne"}
+
+
+def norm_cmp(op, a, b):
+    """equivalent simpler comparison (unsigned, checked arithmetic):
+         (x - y) ==/!=/>  0   ->  x ==/!=/> y         (a checked subtraction that did not panic has x >= y)
+         x ==/!= min(x, y)    ->  x <=/> y ;   min(x, y) < x -> y < x ;  dually for max"""
+    for _ in range(4):
+        if is_int(a) and not is_int(b):
+            op, a, b = _FLIP[op], b, a
+        if _is_sub(a) and is_int(b) and b[1] == 0:
+            if op in ("Eq", "Ne", "Gt"):
+                a, b = a[2], a[3]
+                continue
+            if op == "Le":
+                op, a, b = "Eq", a[2], a[3]
+                continue
+        if _is_sub(a) and is_int(b) and b[1] == 1 and op in ("Lt", "Ge"):
+            op, a, b = ("Eq" if op == "Lt" else "Ne"), a[2], a[3]
+            continue
+        done = True
+        for x, m, flipped in ((a, b, False), (b, a, True)):
+            y = _minmax_other(m, x)
+            if y is None:
+                continue
+            o = _FLIP[op] if flipped else op       # now: x o m
+            if m[0] == "min":
+                if o == "Eq":
+                    op, a, b = "Le", x, y
+                elif o == "Ne" or o == "Gt":
+                    op, a, b = "Gt", x, y
+                else:
+                    continue
+            else:
+                if o == "Eq":
+                    op, a, b = "Ge", x, y
+                elif o == "Ne" or o == "Lt":
+                    op, a, b = "Lt", x, y
+                else:
+                    continue
+            done = False
+            break
+        if done:
+            break
+    return op, a, b
+
+
 def canon_cmp(op, a, b):
     """return (atom, polarity) with atom in {('lt',a,b), ('eq',a,b)} """
+    op, a, b = norm_cmp(op, a, b)
     if op == "Lt":
         return ("lt", a, b), True
     if op == "Gt":
@@ -417,7 +476,10 @@ def _find_minmax(f):
 def _find_minmax_facts(facts):
     """min/max/saturating_sub terms hidden in equality facts (they may have been eliminated from the residual)"""
     for atom, pol in facts.order:
-        if atom[0] == "eq" and pol is True:
+        is_eq = (atom[0] == "eq" and pol is True) or \
+            (atom[0] == "lt" and pol is False and is_int(atom[1]) and atom[1][1] == 0) or \
+            (atom[0] == "lt" and pol is True and is_int(atom[2]) and atom[2][1] == 1)
+        if is_eq:
             for s in subterms(atom):
                 if isinstance(s, tuple) and s and s[0] in MINMAX:
                     return s
